@@ -61,6 +61,8 @@ FailsEnter(r) ==
     Unless(r.crash = "", "C06.crash")
     \cup Unless(r.cfg_same, "C09.cfg")
     \cup Unless(r.task_same, "C09.task")
+    \cup Unless(r.repro = 1, "C07.repro")      \* the same key on a second fresh instance gave a different result
+    \cup Unless(r.reuse = 1, "C08.reuse")      \* ... and once more on that used instance
 
 FailsPhase(r, k, old) ==
     LET new == PopOf(r.snaps[k])
